@@ -1,7 +1,7 @@
 //@ unit L_pos
 //@ props C05 C02
 //@ strength proved-unbounded
-//@ min-verified 8
+//@ min-verified 9
 //@ assume Coverage::glyph_coverage_value and ClassDef::glyph_class_value are used through their contracts (proved in L_cov); abstracted here as uninterpreted functions
 //@ assume struct invariants established by the sub-table readers (not verified here): every Class1Record holds class2_count Class2Records; every BaseRecord and every ligature ComponentRecord holds mark_class_count anchors. They are stated as preconditions (wf).
 //@ unverified the sub-table readers, ValueRecord decoding, gpos.rs callers and iteration strategies
